@@ -2,7 +2,7 @@
 and 6, the cmap Table container, GetBest).  To be merged into cfg/C09.py by the lead (modules,
 required_theorems, areas, partial, modelled_not_verified, assumptions are lists to concatenate)."""
 
-PROP = {'modules': ['SfntV.Props.C09b'],
+PROP = {'drive': ['Cmapx'], 'harness_files': ['area_cmapx.go'], 'modules': ['SfntV.Props.C09b'],
  'required_theorems': ['C09_fmt12',
                        'C09_fmt12_total',
                        'C09_fmt12_lib',
@@ -11,16 +11,25 @@ PROP = {'modules': ['SfntV.Props.C09b'],
                        'C09_fmt0_accepts',
                        'C09_fmt0_roundtrip',
                        'C09_impl_eq_spec_6',
+                       'C09_table_roundtrip',
+                       'C09_table_shared',
                        'C09_table_no_panic',
                        'C09_table_entries',
                        'C09_get_no_panic',
                        'C09_best',
                        'C09_best_none',
-                       'C09_generated_facts'],
- 'areas': [('cmapx', 6000, 60000)],
+                       'C09_install',
+                       'C09_generated_facts',
+                       'C09_fmt12_orig_wrap',
+                       'C09_fmt12_maxkey_refused',
+                       'C09_fmt6_orig_wrap'],
+ 'areas': [('cmapx', 6000, 24000)],
  'rule': 'distinct case lines (map / subtable bytes / table entries, with the queried codes); non-trivial = '
          'a map with at least two entries, a mutated or crafted subtable, a table with at least two keys',
- 'partial': [],
+ 'partial': ['Macintosh platform (1,0) with a format 0 subtable: decodeFormat0 ignores code2rune, so Get(...).Lookup '
+             'answers in raw MacRoman codes while format 6/4 answer in Unicode (known finding C09-mac-format0, open; '
+             'C09_impl_eq_spec_0 is stated in code space where the decoder is correct; generator queries only '
+             'ASCII runes on that path)'],
  'modelled_not_verified': ['maps.Keys + sort.Slice (Format12.Encode, Table.Encode) are not modelled: the models '
                            'take the entries sorted by key (the result is unique because Go map keys are '
                            'distinct); the driver sorts the case line, byte-exact correspondence covers it',
@@ -37,7 +46,11 @@ PROP = {'modules': ['SfntV.Props.C09b'],
                  'ascending < 2^32, glyph ids < 65536); C09_fmt12_lib additionally: at most 65536 entries (the '
                  "property's domain; decodeFormat12 refuses more) and no key 0xFFFFFFFF (refused by the decoder "
                  'by design)',
-                 'C09_get_no_panic / C09_best: the format 4 decoder is any function that does not panic']}
+                 'C09_get_no_panic / C09_best: the format 4 decoder is any function that does not panic',
+                 'C09_table_roundtrip: ValidSub (platform <= 4, 16-bit encoding id, format/length header valid and '
+                 'equal to the subtable size, language rule), fewer than 65536 entries (numTables is 16 bit: with '
+                 '65536 keys Encode writes numTables = 0 and Decode returns an empty table, run on the real code), '
+                 'encoded size < 4 GiB']}
 
 LEVEL = {'text': 'Proof (parts of C09 outside format 4): for every map uint32->glyph the model of Format12.Encode '
          'writes bytes on which an independent executable OpenType format-12 lookup returns the map (0 for '
@@ -53,3 +66,4 @@ LEVEL = {'text': 'Proof (parts of C09 outside format 4): for every map uint32->g
          'of the OpenType cmap chapter. Four one-line repairs in /repo are modelled (see report).',
  'technique': 'Lean 4 proofs about encoder/decoder models against executable specification decoders + '
               'differential correspondence'}
+READY = True
